@@ -131,9 +131,19 @@ def regenerate(prop, report):
     report["gen"] = []
     if not gens:
         return True
-    exe = os.path.join(BIN, "extract")
+    # the extractor is compiled per property from the shared files plus this property's
+    # own extractor files (cxx*.go), so one property's extractor cannot break another's check
+    import glob as _glob
+    os.makedirs(BIN, exist_ok=True)
+    exe = os.path.join(BIN, "extract_" + prop["id"])
     src = os.path.join(ROOT, "tools", "extract")
-    rc, out, _ = run(["go", "build", "-o", exe, "."], cwd=src, env=tool_go_env())
+    files = ["main.go", "astutil.go", "translate.go"]
+    files += sorted(os.path.basename(f) for f in _glob.glob(os.path.join(src, prop["id"].lower() + "*.go")))
+    for g in gens:
+        for f in g.get("files", []):
+            if f not in files:
+                files.append(f)
+    rc, out, _ = run(["go", "build", "-o", exe] + files, cwd=src, env=tool_go_env())
     if rc != 0:
         report["gen"].append({"error": "extractor build failed", "output": out[-2000:]})
         return False
